@@ -107,4 +107,10 @@ CHECKS = {
         "note": "Trusted: the reference scanner as the reading of the macro syntax in the statement.",
         "design_ref": "DESIGN.md §4 C20",
     },
+    "C05": {
+        "technique": "two-way differential monitor against an independent spec-derived Hayson writer (member orders, optional members, number/string spellings) and strict reader",
+        "level": "Held on ~3e5 (quick) / ~5e6 (thorough) values x one random document each, both directions, all three decode entry points; all member orders of the small objects enumerated.",
+        "note": "Trusted: harness/src/refjson.rs (mapping transcription, DESIGN Appendix B), serde_json as JSON parser for the reference reader.",
+        "design_ref": "DESIGN.md §4 C05, Appendix B",
+    },
 }
